@@ -45,8 +45,8 @@ package types
 
 // ---- voted messages: stateless validation and the payload each vote signs -------
 
-// bflat(a, off, n): concatenation of the n byte strings a[off], ..., a[off+n-1]
-//@ smt (define-fun-rec bflat ((a (Array Int Bytes)) (off Int) (n Int)) Bytes (ite (<= n 0) bempty (bcat (bflat a off (- n 1)) (select a (+ off (- n 1))))))
+// bflatp(p, a, off, n): the prefix p followed by the n byte strings a[off], ..., a[off+n-1]
+//@ smt (define-fun-rec bflatp ((p Bytes) (a (Array Int Bytes)) (off Int) (n Int)) Bytes (ite (<= n 0) p (bcat (bflatp p a off (- n 1)) (select a (+ off (- n 1))))))
 
 //@ func (*MsgNewBlockHashes).Validate
 //@ property C06 C19 C01
@@ -61,9 +61,9 @@ package types
 //@ func (*MsgNewBlockHashes).VoteSigDoc
 //@ property C01
 //@ requires req != nil
-//@ ensures payload: result == bcat(bcat(bzeros(8), le64(req.StartBlockNumber)), bflat(arr(req.BlockHash), off(req.BlockHash), len(req.BlockHash)))
+//@ ensures payload: result == bflatp(bcat(bzeros(8), le64(req.StartBlockNumber)), arr(req.BlockHash), off(req.BlockHash), len(req.BlockHash))
 //@ loop 0 invariant -1 <= rangeindex && rangeindex < len(req.BlockHash)
-//@ loop 0 invariant data == bcat(bcat(bzeros(8), le64(req.StartBlockNumber)), bflat(arr(req.BlockHash), off(req.BlockHash), rangeindex + 1))
+//@ loop 0 invariant data == bflatp(bcat(bzeros(8), le64(req.StartBlockNumber)), arr(req.BlockHash), off(req.BlockHash), rangeindex + 1)
 //@ loop 0 decreases len(req.BlockHash) - rangeindex
 //@ modifies nothing
 
